@@ -140,7 +140,20 @@ def run_unit(unit, defines=None, vacuity=False, rlimit=None, seed=None, tag='mai
                 kind = k
                 break
         spans = []
-        for sp in d.get('spans', []):
+        raw_spans = list(d.get('spans', []))
+        for sp in list(raw_spans):
+            # a span inside a macro expansion: also look at the macro's call site (that is where the repository text is)
+            ex = sp.get('expansion')
+            depth = 0
+            while ex and depth < 5:
+                cs = ex.get('span')
+                if cs:
+                    raw_spans.append(dict(cs, is_primary=sp.get('is_primary'), label=(sp.get('label') or '') + ' (macro call site)'))
+                    ex = cs.get('expansion')
+                else:
+                    break
+                depth += 1
+        for sp in raw_spans:
             ls = sp.get('line_start')
             le = sp.get('line_end') or ls
             o = linemap[ls] if ls is not None and 0 < ls < len(linemap) else None
